@@ -13,8 +13,10 @@ def model_check(chk, cfg='MCProgram_small.cfg', timeout=300):
     chk.coverage['transitions'] = chk.coverage.get('transitions', 0) + r.generated
     return r
 
-def generate(cfg, simulate=None, depth=None, timeout=900, workers=8):
-    r = vf.tlc('MCProgram', cfg, workers=workers, simulate=simulate, depth=depth, timeout=timeout)
+def generate(cfg, simulate=None, depth=None, timeout=900, workers=8, module='MCProgram'):
+    r = vf.tlc(module, cfg, workers=workers, simulate=simulate, depth=depth, timeout=timeout)
+    if r.violation:
+        raise vf.ToolError('%s/%s: invariant %s violated in the MODEL\n%s' % (module, cfg, r.violation, r.out[-2500:]))
     if not r.behaviours:
         raise vf.ToolError('no behaviours generated from %s\n%s' % (cfg, r.out[-2000:]))
     # de-duplicate
@@ -24,8 +26,18 @@ def generate(cfg, simulate=None, depth=None, timeout=900, workers=8):
             seen.add(b); out.append(b)
     return out, r
 
+def expr_text(n):
+    k = n['k']
+    t = lambda x, g: x if g == 'none' else '%s(%s)' % (g, x)
+    if k == 'leaf': return t('Box%s' % (tuple(n['box']),), n['t'])
+    if k == 'ref': return t('s', n['t'])
+    if k == 'let': return 'let s=%s in %s' % (expr_text(n['def']), expr_text(n['body']))
+    sym = {'Add': '+', 'Subtract': '-', 'Intersect': '^'}[n['op']]
+    return t('(%s)%s' % ((' %s ' % sym).join(expr_text(c) for c in n['ch']), {'temp': '', 'held': '@held', 'pre': '@pre'}[n['own']]), n['t'])
+
 def prog_text(beh):
     """canonical readable text of a behaviour's program (used for signatures & samples)"""
+    if 'k' in beh: return expr_text(beh)
     out = []
     for a in beh['prog']:
         k = a['a']
@@ -33,6 +45,7 @@ def prog_text(beh):
         elif k == 'Bool': out.append('h%d=h%d %s h%d' % (a['h'], a['x'], a['op'], a['y']))
         elif k == 'BoolAssign': out.append('h%d %s= h%d' % (a['x'], a['op'], a['y']))
         elif k == 'Batch': out.append('h%d=Batch%s(%s)' % (a['h'], a['op'], ','.join('h%d' % x for x in a['xs'])))
+        elif k == 'XfAssign': out.append('h%d=%s(h%d)' % (a['x'], a['g'], a['x']))
         elif k == 'Xf': out.append('h%d=%s(h%d)' % (a['h'], a['g'], a['x']))
         elif k == 'Same': out.append('h%d=%s(h%d)' % (a['h'], a['s'], a['x']))
         elif k == 'Split': out.append('h%d,h%d=Split(h%d,h%d)' % (a['h'], a['h2'], a['x'], a['y']))
@@ -44,16 +57,38 @@ def prog_text(beh):
         else: out.append(k)
     return '; '.join(out)
 
-def replay(chk, behaviours, K, opts, owned, variant='seq', tag='', timeout=3000, sig_of=None, confirm=True):
+def pdrive(variant, args, behaviours, work, tag, timeout, jobs):
+    """run the driver over the behaviours in `jobs` parallel chunks; indices are global"""
+    from concurrent.futures import ThreadPoolExecutor
+    n = len(behaviours)
+    jobs = max(1, min(jobs, (n + 199) // 200))
+    size = (n + jobs - 1) // jobs
+    def one(j):
+        lo = j * size
+        chunk = behaviours[lo:lo + size]
+        inp = '%s/beh%s.%d.ndjson' % (work, tag, j)
+        out = '%s/res%s.%d.ndjson' % (work, tag, j)
+        vf.write_ndjson(inp, chunk)
+        res, cr = vf.drive(variant, args, inp, out, timeout=timeout)
+        return ({lo + i: r for i, r in res.items()}, [(lo + i, rc, t) for (i, rc, t) in cr])
+    results, crashes = {}, []
+    with ThreadPoolExecutor(max_workers=jobs) as ex:
+        for res, cr in ex.map(one, range(jobs)):
+            for i, r in res.items():
+                r['i'] = i
+            results.update(res); crashes += cr
+    return results, crashes
+
+def replay(chk, behaviours, K, opts, owned, variant='seq', tag='', timeout=3000, sig_of=None, confirm=True,
+           mode='prog', jobs=8):
     """behaviours: list of JSON strings.  owned: set of failure-kind prefixes this property owns.
     Returns (n_run, n_nontrivial)."""
     work = '%s/work/%s' % (vf.BUILD, chk.pid)
     os.makedirs(work, exist_ok=True)
     inp = '%s/beh%s.ndjson' % (work, tag)
     out = '%s/res%s.ndjson' % (work, tag)
-    vf.write_ndjson(inp, behaviours)
-    args = ['prog', '--K=%d' % K] + opts
-    results, crashes = vf.drive(variant, args, inp, out, timeout=timeout)
+    args = [mode, '--K=%d' % K] + opts
+    results, crashes = pdrive(variant, args, behaviours, work, tag, timeout, jobs)
     nontrivial = sum(1 for r in results.values() if r.get('nontrivial', 0) > 0)
     failing = []
     for i, r in sorted(results.items()):
@@ -68,6 +103,8 @@ def replay(chk, behaviours, K, opts, owned, variant='seq', tag='', timeout=3000,
         # re-run the failing behaviours once: only repeatable failures count
         inp2, out2 = inp + '.confirm', out + '.confirm'
         vf.write_ndjson(inp2, [behaviours[i] for i, _ in failing])
+        vf.write_ndjson(inp2, [behaviours[i] for i, _ in failing][:200])
+        failing = failing[:200]
         res2, cr2 = vf.drive(variant, args, inp2, out2, timeout=600)
         confirmed = []
         for n, (i, fl) in enumerate(failing):
@@ -108,7 +145,7 @@ def replay_file(path):
     os.makedirs(work, exist_ok=True)
     vf.write_ndjson(work + '/b.ndjson', [json.dumps(rp['behaviour'])])
     args = rp['driver']
-    results, crashes = vf.drive('seq', args, work + '/b.ndjson', work + '/r.ndjson', timeout=600)
+    results, crashes = vf.drive(rp.get('variant', 'seq'), args, work + '/b.ndjson', work + '/r.ndjson', timeout=600)
     print(json.dumps(results.get(0), indent=1)); print(crashes)
     bad = bool(crashes) or bool(results.get(0, {}).get('fail'))
     if bad:
